@@ -73,4 +73,8 @@ Proof.
   destruct (complete_if_covered (W s) evs n HG HF' Hcov Hfin Hn) as [A B].
   repeat split; auto. destruct Hfin as (f & Hf & Hff). apply (HF f (net f Hf) Hff).
 Qed.
+
+(** without the discharged hypothesis *)
+Definition end_to_end_prefix' := end_to_end_prefix (late_never sid0 rsa swin cwin ops).
+Definition complete_if_covered_e2e' n := complete_if_covered_e2e n (late_never sid0 rsa swin cwin ops).
 End E2E.
